@@ -184,6 +184,9 @@ def call_shapes():
         [C('g', 'a', 0, 1), C('g', 'a', 0, 1)],   # duplicate path: the writer must reject it
         [C('e', '', 0, 1)],                       # empty group and channel names
         [['G', 'e', 2], C('e', 'a', 1, 3)],
+        # the same ChannelObject instance written again after its .data was replaced (streaming loop with a shorter last block)
+        [['C*', 'g', 'a', 0, 3, 0]],
+        [['C*', 'g', 'a', 0, 1, 0], C('g', 'b', 1, 1)],
     ]
     return shapes
 
@@ -201,10 +204,11 @@ class Skip(Exception):
     pass
 
 
-def build_objects(call, assign, counters):
+def build_objects(call, assign, counters, instances=None):
     from nptdms import RootObject, GroupObject, ChannelObject
     objs = []
     model = []
+    instances = {} if instances is None else instances
     for o in call:
         if o[0] == 'R':
             menu = prop_menu(o[1])
@@ -224,6 +228,17 @@ def build_objects(call, assign, counters):
             inp, t, vals = build_data(kind, n, k)
             counters[key] = k + n
             menu = prop_menu(m)
+            if _c == 'C*':
+                if not isinstance(inp, np.ndarray) or inp.dtype.kind in 'OMU':
+                    raise Skip('instance reuse is exercised with plain numeric arrays only')
+                if key in instances:
+                    obj = instances[key]
+                    obj.data = inp          # public attribute: replace the block to be written next
+                else:
+                    obj = instances[key] = ChannelObject(GROUPS[g], c, inp)
+                objs.append(obj)
+                model.append((('c', GROUPS[g], c), (kind, t, vals), []))
+                continue
             objs.append(ChannelObject(GROUPS[g], c, inp, properties={n_: v for n_, v, _t, _e in menu} if menu else None))
             model.append((('c', GROUPS[g], c), (kind, t, vals), menu))
     return objs, model
@@ -234,10 +249,10 @@ def run_program(calls, assign, split, version, dest, index):
     -> ('rejected', call index, err) | ('written', data bytes, index bytes|None, model, tmpdir-less)"""
     from nptdms import TdmsWriter
     counters = {}
-    built = []
-    for call in calls:
-        built.append(build_objects(call, assign, counters))
-    sessions = [built] if not split or len(built) < 2 else [built[:split], built[split:]]
+    instances = {}
+    models = []
+    nc = len(calls)
+    sessions = [list(range(nc))] if not split or nc < 2 else [list(range(split)), list(range(split, nc))]
     tmp = None
     try:
         if dest == 'path':
@@ -246,25 +261,26 @@ def run_program(calls, assign, split, version, dest, index):
         else:
             stream = io.BytesIO()
             istream = io.BytesIO() if index else None
-        ci = 0
         for sidx, sess in enumerate(sessions):
             if dest == 'path':
                 w = TdmsWriter(path, mode='w' if sidx == 0 else 'a', version=version, index_file=bool(index))
             else:
                 w = TdmsWriter(stream, version=version, index_file=istream if index else False)
             with w:
-                for objs, _model in sess:
+                for ci in sess:
+                    # objects are built right before they are written (a reused instance gets its new data only then)
+                    objs, model = build_objects(calls[ci], assign, counters, instances)
+                    models.append(model)
                     r = H.guarded(w.write_segment, objs)
                     if r[0] != 'ok':
                         return ('rejected', ci, '%s: %s' % (r[1], r[2]))
-                    ci += 1
         if dest == 'path':
             data = open(path, 'rb').read()
             idx = open(path + '_index', 'rb').read() if index else None
         else:
             data = stream.getvalue()
             idx = istream.getvalue() if index else None
-        return ('written', data, idx, [m for _o, m in built])
+        return ('written', data, idx, models)
     finally:
         if tmp:
             shutil.rmtree(tmp, ignore_errors=True)
